@@ -289,6 +289,34 @@ pub fn gen_sym_world(rng: &mut Rng, idx: usize) -> SymWorld {
     mods[i].own.push(name.clone());
     mods[u].own.push(name);
   }
+  // further cyclic topologies: namespace re-exports of each other, a renamed default handed round,
+  // and a name imported and exported again by each of two modules
+  if rng.chance(1, 5) && mods.len() >= 2 {
+    let n = mods.len();
+    let i = rng.below(n);
+    let t = (i + 1 + rng.below(n - 1)) % n;
+    let tag = idx % 83;
+    match rng.below(3) {
+      0 => {
+        mods[i].text.push_str(&format!("export * as nsc{} from \"./m{}.ts\";\n", tag, t));
+        mods[t].text.push_str(&format!("export * as nsc{} from \"./m{}.ts\";\n", tag, i));
+        mods[i].own.push(format!("nsc{}", tag));
+        mods[t].own.push(format!("nsc{}", tag));
+      }
+      1 => {
+        mods[i].text.push_str(&format!("export {{ dc{} as dd{} }} from \"./m{}.ts\";\n", tag, tag, t));
+        mods[t].text.push_str(&format!("export {{ dd{} as dc{} }} from \"./m{}.ts\";\n", tag, tag, i));
+        mods[i].own.push(format!("dd{}", tag));
+        mods[t].own.push(format!("dc{}", tag));
+      }
+      _ => {
+        mods[i].text.push_str(&format!("import {{ ie{} }} from \"./m{}.ts\";\nexport {{ ie{} }};\n", tag, t, tag));
+        mods[t].text.push_str(&format!("import {{ ie{} }} from \"./m{}.ts\";\nexport {{ ie{} }};\n", tag, i, tag));
+        mods[i].own.push(format!("ie{}", tag));
+        mods[t].own.push(format!("ie{}", tag));
+      }
+    }
+  }
   // a JSON module whose text begins and ends with white space
   if rng.chance(1, 3) {
     let n = mods.len();
